@@ -57,12 +57,15 @@ Definition api_chist (s : src) (ops : list hop) : list answer * list answer :=
 
 (* pair: observer histories on both sides, then equality and the final answers *)
 Record pair_obs := mkPairObs {
+  po_eq0 : bool;   (* a == b before any observer was called *)
   po_eq : bool; po_eqr : bool;
   po_a : list answer; po_b : list answer }.
 
-Definition final_ops : list hop := [OSrc; OBuf; OMap true; OMap false; OStream true false; OStream false false; OHash].
+(* the hash is taken first (the state the history left) and last (after every other observer) *)
+Definition final_ops : list hop :=
+  [OHash; OSrc; OBuf; OMap true; OMap false; OStream true false; OStream false false; OHash].
 
 Definition api_pair (a : src) (opsa : list hop) (b : src) (opsb : list hop) : pair_obs :=
   let sta := snd (run_hops [] a opsa) in
   let stb := snd (run_hops [] b opsb) in
-  mkPairObs (src_eqb a b) (src_eqb b a) (fst (run_hops sta a final_ops)) (fst (run_hops stb b final_ops)).
+  mkPairObs (src_eqb a b) (src_eqb a b) (src_eqb b a) (fst (run_hops sta a final_ops)) (fst (run_hops stb b final_ops)).
